@@ -141,6 +141,20 @@ class Bits:
                 res = (b[0], (name,)) if b else None
             elif cal.endswith('Integer::from_digits'):
                 res = (256, (name,))
+            elif cal.endswith('array::from_fn') and args and args[-1]['k'] in ('copy', 'move') and not args[-1]['pl'].get('p'):
+                # `let [r_1, r_2, ..]: [Integer; K] = std::array::from_fn(|_| random_bits(CS::ln))`: every element is what the closure returns
+                ci = self.fd._closure_info(args[-1]['pl']['l'])
+                if ci is not None and ci[0] in self.prog.bodies:
+                    ch = self.child(ci[0])
+                    b = ch.bits_place({'l': 0}, depth + 1)
+                    if b is not None:
+                        res = (b[0], (name,))
+                        if getattr(ch, 'nonconst_masks', None):
+                            self.nonconst_masks = getattr(self, 'nonconst_masks', set())
+                            self.nonconst_masks.add(name)
+                        if getattr(ch, 'masks', None):
+                            self.masks = getattr(self, 'masks', {})
+                            self.masks[name] = b[0]
             elif cal == 'std::ops::Mul::mul':
                 a, b = self.bits_op(args[0], depth + 1), self.bits_op(args[1], depth + 1)
                 if a and b:
